@@ -43,7 +43,13 @@ EXHAUSTIVE = {"quick": False, "thorough": False}
 TIME_BUDGET = {"quick": 60, "thorough": 900}
 MIN_CASES = 2000
 CASE_TIMEOUT = 60
-TRUSTED = ["nsga3e lines: the fronts come from the model's own sort (Core/NDSort.lean, proved in C04) on the exact "
+TRUSTED = ["translator tie: harness/py2lean_c07.py (the rendering rules in its docstring: imperative sub-language, lists by value in "
+           "state-passing style, random.randint read from the tape as Spea2.randomizedPartition reads it, while-loop bounds and "
+           "parameter types from the tables of harness/props/c07_translate.py, recursion with fuel) and "
+           "lean/DeapModel/Core/GenPreludeC07.lean; it covers _partition, _randomizedPartition, _randomizedSelect, "
+           "gen_refs_recursive and the deletion loop of selSPEA2 — everything else of the C07 surface is refused by the "
+           "translator (reasons in evidence/C07.translated.json) and is tied by the differential correspondence only",
+           "nsga3e lines: the fronts come from the model's own sort (Core/NDSort.lean, proved in C04) on the exact "
            "values of the weighted values; the older nsga3/nsga3f/niching lines still replay the later stages on the "
            "implementation's captured fronts; the front-priority oracle recomputes the ranks by brute force",
            "numpy.linalg.solve (LAPACK) is not modelled: it is the model's `solve` parameter; in the selNSGA3 "
@@ -554,6 +560,27 @@ def translation_oracle(d, w, vals, k, refs, cap, F, flat):
     if not numpy.allclose(d1, d2, rtol=1e-6, atol=1e-9):
         return "perpendicular distances change under a translation of the objective space: %s vs %s" % (d1.tolist(), d2.tolist())
     return None
+
+
+def translate(repo):
+    """translator tie (lib._translated_obligations): Lean definitions regenerated from `repo`'s current deap/tools/emo.py +
+    the committed theorems of lean/DeapModel/GenEq/C07.lean.tmpl (harness/py2lean_c07.py)"""
+    from props import c07_translate
+    import json
+    import os
+    import lib
+    tr = c07_translate.translate(repo)
+    try:
+        os.makedirs(os.path.join(lib.OUT, "evidence"), exist_ok=True)
+        with open(os.path.join(lib.OUT, "evidence", "C07.translated.json"), "w") as fh:
+            json.dump({"definitions": len(tr["definitions"]), "theorems": len(tr["theorems"]),
+                       "refused": len(tr["refused"]), "problems": tr["problems"],
+                       "functions": [dict(file=f, name=n, lean=l, status=st, detail=d) for f, n, l, st, d in tr["table"]],
+                       "theorem_names": tr["theorems"]}, fh, indent=1)
+            fh.write("\n")
+    except OSError:
+        pass
+    return tr
 
 
 def dtok(x):
